@@ -27,6 +27,7 @@ def check(chk, thorough=False):
     chk.run('C11.k', 'R-TRUTH', 'the Previous Node block names this node as configured: the configuration loader hands the node ID on as read (= C10.l)', lambda ob: __import__('sa.props.common', fromlist=['config_verbatim']).config_verbatim(tree, ob, 'bp/config.py'), floor=2)
     chk.run('C11.l', 'sibling', 'the generic layer re-encodes what it decoded: enumerations do not fall back to a default, items are not skipped (= C02.c)', lambda ob: __import__('sa.props.c02', fromlist=['c02c']).c02c(tree, ob), floor=10)
     chk.run('C11.m', 'R-GUARD', 'the hop-by-hop blocks are brought up to date once per forward: no TX step edits them again for every fragment (= C05.l)', lambda ob: __import__('sa.props.common', fromlist=['tx_steps_discipline']).tx_steps_discipline(tree, ob), floor=4)
+    chk.run('C11.n', 'R-GUARD', 'a forwarding node adds security blocks only to bundles it originated: the own-source pattern ends the node part (separator) before the wildcard', lambda ob: own_source_pattern(tree, ob), floor=2)
     chk.run('C11.e', 'R-ORDER', 'CRCs are computed on the bytes actually sent (= C08.a)', lambda ob: c08a(tree, ob), floor=3)
 
 
@@ -519,3 +520,68 @@ def c11h(tree, ob):
     from .common import iter_mutation
     iter_mutation(tree, ob, [CLA])
     ob.require(n >= 6, 'send_bundle_data / parking sites in bp/cla.py: {}'.format(n))
+
+
+def adaptor_rx_fidelity(tree, ob):
+    ''' the receive side of the adaptors (bp/cla.py): every "finished" announcement of a CL is answered by taking exactly
+    that bundle out of the CL and handing its octets to the agent.  Whether a bundle is a repeat is decided by the agent,
+    by bundle identity; a transfer number says nothing (a CL service numbers from 0 again after a restart): an adaptor that
+    remembers numbers drops new bundles. '''
+    CLA = 'bp/cla.py'
+    n = 0
+    for cls in [c for c in tree.module(CLA).tree.body if isinstance(c, ast.ClassDef)]:
+        for m in [x for x in cls.body if isinstance(x, ast.FunctionDef) and x.name == '_handle_recv_bundle_finish']:
+            n += 1
+            qual = cls.name + '.' + m.name
+            fv = FuncView(tree, CLA, qual)
+            ob.require(len(m.args.args) >= 2, qual + '(self, bid, ...)')
+            bid = m.args.args[1].arg
+            ups = [c for c in calls_in(m) if isinstance(c.func, ast.Attribute) and c.func.attr == 'recv_bundle_finish' and src(c.func.value) == 'self']
+            up = one(ups, 'hand-over to the agent in ' + qual, ob)
+            val = fv.value_at(up.args[0], up, depth=4) if up.args else None
+            txt = src(val) if val is not None else ''
+            want = ('bytes(self.agent_obj.recv_bundle_pop_data({}))'.format(bid), 'self.agent_obj.recv_bundle_pop_data({})'.format(bid), "b''.join(self.agent_obj.recv_bundle_pop_data({}))".format(bid))
+            rets = [r for r in walk_local(m) if isinstance(r, ast.Return)]
+            cond = [(t, p) for (t, p) in (fv.facts(up) or ()) if not t.startswith('isinstance(')]
+            if rets or cond:
+                ob.violate(CLA, qual, (src(rets[0]) if rets else 'hand-over under ' + cond[0][0])[:80], 'a finished reception is not always taken from the CL and handed to the agent (the adaptor decides by '
+                           'its own bookkeeping, e.g. transfer numbers it has seen): a CL that restarts its numbering has its new bundles dropped', rets[0] if rets else up, sure=True)
+            elif txt not in want:
+                ob.violate(CLA, qual, src(up)[:60] + '  with ' + txt[:50], 'what is handed to the agent is not exactly the data popped for the announced transfer', up)
+            else:
+                ob.site(CLA, up, qual + ': every announcement -> pop that transfer -> agent')
+    ob.require(n >= 2, 'adaptors with a receive handler')
+
+
+def own_source_pattern(tree, ob):
+    ''' "updates only the hop-by-hop blocks": a node with a signing key adds an integrity block to bundles it ORIGINATES.
+    "Its own" is decided by a pattern over the source EID made from the node ID; the pattern has to end the node part (the
+    '.' of ipn:N.S, the '/' of dtn://node/...) before the wildcard, or ipn:1.0 also covers ipn:10.3 and dtn://fwd covers
+    dtn://fwd-backup: the node then signs -- changes -- bundles it only forwards. '''
+    SEC = 'bp/app/bpsec.py'
+    fv = FuncView(tree, SEC, 'CoseContext.load_config')
+    uses = [kw.value for c in calls_in(fv.func) if (call_name(c) or '').endswith('SecAssociation') for kw in c.keywords if kw.arg == 'src_pat']
+    ob.require(uses, 'source pattern of an association made in load_config')
+    n = 0
+    for u in uses:
+        got = pm('re.compile($p)', u)
+        if got is None or not isinstance(got['p'], ast.Name):
+            continue
+        for (st, v) in fv.reaching_defs(got['p'].id, u):
+            if v is None or not isinstance(v, ast.AST):
+                continue
+            n += 1
+            full = fv.value_at(v, st, depth=4) if not isinstance(v, ast.BinOp) else v
+            text = src(full)
+            okform = None
+            m = pm("re.escape($s + $sep) + '.*'", full)
+            if m is not None and isinstance(m['sep'], ast.Constant) and m['sep'].value in ('.', '/'):
+                stem = fv.value_at(m['s'], st, depth=4)
+                sfx = pm('$n.removesuffix($x)', stem)
+                okform = sfx is not None and isinstance(sfx['x'], ast.Constant) and ((m['sep'].value == '.' and sfx['x'].value == '.0') or (m['sep'].value == '/' and sfx['x'].value == '/'))
+            if okform:
+                ob.site(SEC, st, 'own-source pattern ends the node part before the wildcard')
+            else:
+                ob.violate(SEC, fv.qual, text[:90], 'the pattern for "bundles of this node" does not end the node part with its separator before the wildcard: it also matches the sources of other nodes '
+                           'whose ID starts the same (ipn:1 / ipn:10.3, dtn://fwd / dtn://fwd-backup), and forwarded bundles of those get a block added', st)
+    ob.require(n >= 1, 'definitions of the own-source pattern')
